@@ -259,6 +259,10 @@ class Monitor:
             if single_slot(d):
                 self.idle[d.name] = [0, 0, -1]
                 self.prev_empty[d.name] = True
+                if isinstance(d, PartProcessor):
+                    # a restore (also one issued between two runs, outside any event) restarts the latest admissible
+                    # reading of "idle since"
+                    d.add_restored_callback(self.on_restored)
 
     GROUP = {'C01': 'head', 'C02': 'cons', 'C03': 'wake', 'C05': 'buf', 'C06': 'cycle', 'C08': 'route', 'C11': 'res',
              'C13': 'acct', 'C15': 'log', 'C16': 'value', 'C17': 'batch'}
@@ -330,6 +334,13 @@ class Monitor:
                                  f'{len(leaves(part))} part(s) at {now}')
                     if size is None and len(ids) != 1 and isinstance(part, Batch) and self.bat_input_is_flat(giver):
                         self.bad('C17.single', f'{giver.name} (single mode) emitted a batch of {len(ids)} at {now}')
+
+    def on_restored(self, m):
+        if self.probing:
+            return
+        rec = self.idle.get(m.name)
+        if rec is not None and m._part is None and m._output is None:
+            rec[1] = max(rec[1], self.env.now)
 
     def bat_input_is_flat(self, batcher):
         return True
